@@ -89,7 +89,7 @@ func RandomTree(r *rand.Rand, o genOpts) model.Tree {
 		case k < 77:
 			tg := []string{"a", "/abs/target", "../x", "dangling", ".", "a/b/c", "\xc3\xa9", "sub/", "./a", "a//b", "a/../b", "../../", "/"}[r.Intn(13)]
 			e = model.Entry{Type: "symlink", Perm: 0777, Link: tg, Uid: genIDs[r.Intn(len(genIDs))], Gid: genIDs[r.Intn(len(genIDs))], Mtime: uniqueMtime()}
-		case k < 90 && o.Links && len(files) > 0:
+		case k < 90 && o.Links && len(files) > 0 && nm != ".fsutil-metadata":
 			// hard link to an existing regular file
 			j := files[r.Intn(len(files))]
 			if t[j].Group == 0 {
@@ -98,7 +98,7 @@ func RandomTree(r *rand.Rand, o genOpts) model.Tree {
 			}
 			e = t[j]
 			e.Xattrs = t[j].Xattrs
-		case k < 92 && o.Special && o.Links && len(specials) > 0 && r.Intn(3) == 0:
+		case k < 92 && o.Special && o.Links && len(specials) > 0 && r.Intn(3) == 0 && nm != ".fsutil-metadata":
 			// hard link to an existing fifo / device node
 			j := specials[r.Intn(len(specials))]
 			if t[j].Group == 0 {
@@ -151,10 +151,12 @@ func RandomTree(r *rand.Rand, o genOpts) model.Tree {
 				e.Xattrs["security.capability"] = "\x01\x00\x00\x02\x00\x04\x00\x00\x00\x00\x00\x00\x00\x00\x00\x00\x00\x00\x00\x00"
 			}
 		}
-		if e.Type == "file" {
+		// (an entry with the listing file's name stays out of hard-link groups: in a metadata-only transfer it is never sent,
+		// so it cannot be the link source the selector is required to select)
+		if e.Type == "file" && nm != ".fsutil-metadata" {
 			files = append(files, len(t))
 		}
-		if e.Type == "fifo" || e.Type == "chr" || e.Type == "blk" {
+		if (e.Type == "fifo" || e.Type == "chr" || e.Type == "blk") && nm != ".fsutil-metadata" {
 			specials = append(specials, len(t))
 		}
 		t = append(t, e)
